@@ -21,6 +21,11 @@ const (
 	TInt Ty = iota
 	TStr
 	TAny // type of a NULL literal
+	// TBool is a generator-side refinement of TInt (the Lean model has no boolean type: a predicate
+	// is the integer 1/0/NULL): the column holds the value of a predicate. The engine's hashing
+	// operators distinguish TRUE from 1 (observed defect), so the generator keeps such columns out of
+	// DISTINCT / GROUP BY keys / set operations / IN-subquery outputs by adding `+ 0`.
+	TBool
 )
 
 func (t Ty) Sexp() string {
